@@ -1,5 +1,5 @@
 from . import common as C
-from . import strace
+from . import codec, corrupt, strace
 
 
 def run(tier: str, seed: int, prop: str = "C05") -> int:
@@ -8,6 +8,7 @@ def run(tier: str, seed: int, prop: str = "C05") -> int:
     wd = C.workdir(prop)
     try:
         strace.run_traces(rep, wd, tier, seed)
+        corrupt.replay(rep, codec.generate_corruptions(rep, wd, tier), seed)
         rep.rule = ("recorded receive histories of client and server sessions over streams with malformed units (complete envelopes with broken interiors, bad outer "
                     "headers, unknown choices, deep nesting, byte-level mutations of valid units, random bytes) before/after valid units under all chunking strategies; "
                     "judged by SessionTrace.tla with the independent framer Ber!Frame; distinct by event content")
